@@ -202,6 +202,11 @@ def scripted(ver):
                 ("recv", "1;255;3;0;0;-0.4"), ("recv", "1;255;3;0;0;55")],
         pres + [("recv", "1;2;0;0;14;heater"), ("recv", "1;2;1;0;22;1"), ("recv", "1;2;1;0;21;Off"), ("recv", "1;4;0;0;23;custom"), ("recv", "1;4;1;0;0;7"),
                 ("recv", "1;4;1;0;24;v"), ("recv", "1;2;2;0;22;"), ("recv", "1;4;2;0;0;")],
+        # stream and internal messages that share a type number (0 firmware config request / battery report, 2 firmware request /
+        # version report, 3 firmware response / id request), from a known node, in both orders: which handler a number selects
+        # depends on the command it came with, whatever was seen before (seed C04h: a lookup cache keyed by the IntEnum member)
+        pres + [("recv", "1;255;4;0;0;"), ("recv", "1;255;3;0;0;55"), ("recv", "1;255;4;0;3;"), ("recv", "255;255;3;0;3;"), ("recv", "1;255;4;0;2;"),
+                ("recv", "1;255;3;0;11;sketch"), ("recv", "1;255;4;0;1;"), ("recv", "1;255;3;0;12;1.0"), ("recv", "1;255;4;0;0;"), ("recv", "1;255;3;0;0;87")],
     ]
 
 
